@@ -1,1 +1,181 @@
-def main : IO Unit := IO.println "driver C16: not built yet"
+import VncModel.Basic.Proto
+import VncModel.Resize.Model
+/-! Line-protocol driver for the framebuffer-replacement model (C16). Same script as harness/c16.c. -/
+open VncModel VncModel.Proto VncModel.Rgn VncModel.Resize
+open VncModel.Update (CopyRectMsg)
+
+structure DState where
+  st : State := initState 0 0 4 0
+  haveScreen : Bool := false
+  nextTok : Nat := 1
+  hookMode : Int := 0
+  hookCode : Int := 0
+
+def showRect (r : Rect) : String := s!"{r.x1},{r.y1},{r.x2},{r.y2}"
+
+def showRegion (r : Region) : String :=
+  "[" ++ ";".intercalate ((r.rects false false).map showRect) ++ "]"
+
+def showCopy (c : CopyRectMsg) : String := s!"{c.x},{c.y},{c.w},{c.h},{c.srcX},{c.srcY}"
+
+def b01 (b : Bool) : String := if b then "1" else "0"
+
+def showMsg : Msg → String
+  | .size w h => s!"size {w} {h}"
+  | .ext r s w h scr =>
+    s!"ext r={r} s={s} {w} {h} [" ++
+      ";".intercalate (scr.map fun (a, b, c, d, e, f) => s!"{a},{b},{c},{d},{e},{f}") ++ "]"
+  | .resize w h => s!"rsz {w} {h}"
+  | .fbu cs copies raws =>
+    s!"fbu cs={b01 cs} copies=[" ++ ";".intercalate (copies.map showCopy) ++ "] raws=[" ++
+      ";".intercalate (raws.map showRect) ++ "]"
+
+def showObs (o : Obs) : String :=
+  if o.msgs.isEmpty then "none" else " | ".intercalate (o.msgs.map fun m => showMsg m.2)
+
+def ints? (l : List String) : Option (List Int) := l.mapM parseInt?
+
+def orRects (acc : Region) : List Int → Option Region
+  | [] => some acc
+  | a :: b :: c :: d :: more => orRects (acc.or (Region.rect a b c d)) more
+  | _ => none
+
+def buildRegion : List Int → Option Region
+  | x1 :: y1 :: x2 :: y2 :: rest => orRects (Region.rect x1 y1 x2 y2) rest
+  | _ => none
+
+def showState (s : Resize.Screen) (c : Resize.Client) : String :=
+  let b := c.base
+  s!"M={showRegion b.M} C={showRegion b.C} R={showRegion b.R} d={b.dx},{b.dy} " ++
+  s!"nf={b01 c.useNewFBSize} ex={b01 c.useExt} p={b01 c.pending} rq={c.reqChange} er={c.lastErr} " ++
+  s!"cur={b.cursorX},{b.cursorY} xl={if c.xlate.1 == c.xlate.2 then "none" else "tab"} fmt={c.fmt} " ++
+  s!"scr={s.base.width},{s.base.height},{s.bpp},{s.base.cursorX},{s.base.cursorY} ss={c.sw},{c.sh}"
+
+def validB (b : Int) : Bool := b == 1 || b == 2 || b == 4
+
+def dstep (s : DState) (toks : List String) : DState × List String :=
+  let live (n : Nat) : Option Resize.Client := if s.haveScreen then getClient s.st n else none
+  let doOp (op : Op) : DState × Obs :=
+    let (st', o) := step s.st op
+    ({ s with st := st' }, o)
+  match toks with
+  | ["screen", w, h, b] =>
+    match ints? [w, h, b] with
+    | some [w, h, b] =>
+      if s.haveScreen then (s, ["bad-op"]) else
+      ({ s with st := initState w h b 0, haveScreen := true }, ["ok"])
+    | _ => (s, ["bad-op"])
+  | ["cursor", w, h, xh, yh] =>
+    match ints? [w, h, xh, yh] with
+    | some [w, h, xh, yh] =>
+      if !s.haveScreen then (s, ["bad-op"]) else
+      ({ s with st := { s.st with scr := { s.st.scr with base := { s.st.scr.base with cursor := ⟨w, h, xh, yh⟩ } } } }, ["ok"])
+    | _ => (s, ["bad-op"])
+  | ["client", n] =>
+    match n.toNat? with
+    | some n =>
+      if !s.haveScreen || n ≥ 8 || (getClient s.st n).isSome then (s, ["bad-op"]) else
+      ((doOp (.newClient n)).1, ["ok"])
+    | none => (s, ["bad-op"])
+  | ["setenc", n, cr, cs, sz] =>
+    match n.toNat?, ints? [cr, cs, sz] with
+    | some n, some [cr, cs, sz] =>
+      match live n with
+      | some _ => ((doOp (.setEncodings n (cr != 0) (cs != 0) (sz % 2 == 1) (sz / 2 % 2 == 1))).1, ["ok"])
+      | none => (s, ["bad-op"])
+    | _, _ => (s, ["bad-op"])
+  | ["setpf", n, b] =>
+    match n.toNat?, parseInt? b with
+    | some n, some b =>
+      match live n with
+      | some _ =>
+        if validB b then
+          -- the harness' client re-requests everything after changing its format
+          let st1 := (step s.st (.setPixelFormat n b)).1
+          let st2 := (step st1 (.request n false 0 0 65535 65535)).1
+          ({ s with st := st2 }, ["ok"])
+        else (s, ["bad-op"])
+      | none => (s, ["bad-op"])
+    | _, _ => (s, ["bad-op"])
+  | ["setscale", n, k] =>
+    match n.toNat?, parseInt? k with
+    | some n, some k =>
+      match live n with
+      | some _ =>
+        if k ≤ 0 then (s, ["bad-op"]) else
+        let (st1, o) := step s.st (.setScale n k)
+        let st2 := (step st1 (.request n false 0 0 65535 65535)).1
+        ({ s with st := st2 }, [showObs o])
+      | none => (s, ["bad-op"])
+    | _, _ => (s, ["bad-op"])
+  | ["ptr", n, x, y] =>
+    match n.toNat?, ints? [x, y] with
+    | some n, some [x, y] =>
+      match live n with
+      | some _ => ((doOp (.pointer n x y)).1, ["ok"])
+      | none => (s, ["bad-op"])
+    | _, _ => (s, ["bad-op"])
+  | ["draw", x1, y1, x2, y2, _seed] | ["mark", x1, y1, x2, y2] =>
+    match ints? [x1, y1, x2, y2] with
+    | some [x1, y1, x2, y2] =>
+      if !s.haveScreen then (s, ["bad-op"]) else ((doOp (.mark x1 y1 x2 y2)).1, ["ok"])
+    | _ => (s, ["bad-op"])
+  | "copyrgn" :: dx :: dy :: rest =>
+    match ints? [dx, dy], ints? rest with
+    | some [dx, dy], some coords =>
+      match buildRegion coords with
+      | some rg => if !s.haveScreen then (s, ["bad-op"]) else ((doOp (.copy rg dx dy)).1, ["ok"])
+      | none => (s, ["bad-op"])
+    | _, _ => (s, ["bad-op"])
+  | ["hook", m, c] =>
+    match ints? [m, c] with
+    | some [m, c] => if !s.haveScreen then (s, ["bad-op"]) else ({ s with hookMode := m, hookCode := c }, ["ok"])
+    | _ => (s, ["bad-op"])
+  | ["sds", n, w, h, ns] =>
+    match n.toNat?, ints? [w, h, ns] with
+    | some n, some [w, h, ns] =>
+      match live n with
+      | some _ =>
+        if ns < 0 || ns > 255 then (s, ["bad-op"]) else
+        let resizes := s.hookMode == 2 && s.hookCode == 0 && w > 0 && h > 0 && w ≤ 64 && h ≤ 64 && ns != 0
+        let hook : Hook :=
+          if s.hookMode == 0 then none
+          else if resizes then some (s.hookCode, some (w, h, s.st.scr.bpp, s.nextTok))
+          else some (s.hookCode, none)
+        let (s', _) := doOp (.setDesktopSize n w h ns hook)
+        ({ s' with nextTok := if resizes then s.nextTok + 1 else s.nextTok }, ["ok"])
+      | none => (s, ["bad-op"])
+    | _, _ => (s, ["bad-op"])
+  | ["newfb", w, h, b, _seed] =>
+    match ints? [w, h, b] with
+    | some [w, h, b] =>
+      if !s.haveScreen || w < 1 || h < 1 || !validB b then (s, ["bad-op"]) else
+      let (s', _) := doOp (.newFramebuffer w h b s.nextTok)
+      ({ s' with nextTok := s.nextTok + 1 }, ["ok"])
+    | _ => (s, ["bad-op"])
+  | ["req", n, incr, x, y, w, h] =>
+    match n.toNat?, ints? [incr, x, y, w, h] with
+    | some n, some [incr, x, y, w, h] =>
+      match live n with
+      | some _ => ((doOp (.request n (incr != 0) x y w h)).1, ["ok"])
+      | none => (s, ["bad-op"])
+    | _, _ => (s, ["bad-op"])
+  | ["update", n] =>
+    match n.toNat? with
+    | some n =>
+      match live n with
+      | some _ =>
+        let (s', o) := doOp (.update n)
+        (s', [showObs o])
+      | none => (s, ["bad-op"])
+    | none => (s, ["bad-op"])
+  | ["state", n] =>
+    match n.toNat? with
+    | some n =>
+      match live n with
+      | some c => (s, [showState s.st.scr c])
+      | none => (s, ["bad-op"])
+    | none => (s, ["bad-op"])
+  | _ => (s, ["bad-op"])
+
+def main : IO Unit := runDriver ({} : DState) dstep
